@@ -22,6 +22,7 @@ ASSUMPTIONS = c01.ASSUMPTIONS + ["kernel sweep: exact for integer exponents; aff
                                  "plus 5 lattice combinations, not proved for all reals"]
 ANCHORS = {"match.py": [(247, 256), (264, 264), (334, 338)]}
 FORMS_HARNESSES = "all"
+FORMS_SKIP_QUICK = ("long-and-twin-intervals",)   # long inputs under every form: thorough tier only (cost)
 FORMS_WIDTH = {"long-and-twin-intervals": 2}
 EXPLANATION = c01.EXPLANATION
 
